@@ -3731,7 +3731,17 @@ fn parse_sequence_keys(exprs: &[SExpr], s: &ParserState) -> Result<Vec<u16>> {
                                     // press->press: current press is mod
                                     mods_currently_held.push(*pressed);
                                 }
-                                let mut seq_num = u16::from(OsCode::from(pressed));
+                                // Typed keys are matched with right shift, ctrl and meta
+                                // converted to the left-hand key (see do_sequence_press_logic),
+                                // so the sequence must be stored that way too; otherwise e.g.
+                                // (RC-a) or a plain rsft could never be typed.
+                                let pressed_osc = match OsCode::from(pressed) {
+                                    OsCode::KEY_RIGHTSHIFT => OsCode::KEY_LEFTSHIFT,
+                                    OsCode::KEY_RIGHTCTRL => OsCode::KEY_LEFTCTRL,
+                                    OsCode::KEY_RIGHTMETA => OsCode::KEY_LEFTMETA,
+                                    osc => osc,
+                                };
+                                let mut seq_num = u16::from(pressed_osc);
                                 for modk in mods_currently_held.iter().copied() {
                                     seq_num |= mod_mask_for_keycode(modk);
                                 }
